@@ -105,7 +105,7 @@ theorem rename_csn :
   · simp [Query.run, e1, e2, maxIndexForService, h.1, h.2, h1]
   · simp [Query.fired, Query.watch, e1, h1, WatchItem.changed, h.2]
 
-/-! ### 4. NodeServices for a node name shorter than two bytes -/
+/-! ### 4. NodeServices for a node name shorter than two bytes (repaired in /repo 8ebfe04: regression witness) -/
 
 def regM : Cmd := .register ⟨⟨"m", "", "10.0.0.1", 0, 0⟩, none, []⟩
 def deregM : Cmd := .deregister "m" "" ""
@@ -125,15 +125,23 @@ theorem wShort_idx : idxVal wShort.index (nodeKey "m") = 10 := by
   write_eval
   idx_eval
 
+theorem wShort2_ext : idxVal wShort2.index kNodeExt = 12 := by
+  simp only [wShort2, wShort, deregM, regM]
+  write_eval
+  -- the outermost write is the node extinction row itself; everything below is ≤ 12 (no literal comparison
+  -- of the long key strings in the kernel)
+  exact idxVal_idxMax_self (k := kNodeExt) (idxLe_del (idxLe_max (idxLe_max (idxLe_max (idxLe_max (idxLe_max
+    (idxLe_nil 12) _ (by omega)) _ (by omega)) _ (by omega)) _ (by omega)) _ (by omega)) _)
+
 theorem short_run :
     (Query.nodeServices "m").run wShort = (10, .nodeSvcs (some (⟨"m", "", "10.0.0.1", 10, 10⟩, []))) ∧
-    (Query.nodeServices "m").run wShort2 = (0, .nodeSvcs none) := by
+    (Query.nodeServices "m").run wShort2 = (12, .nodeSvcs none) := by
   constructor
   · have : nodeFind wShort "m" = some ⟨"m", "", "10.0.0.1", 10, 10⟩ := by simp [nodeFind, tfind, wShort, Node.pk]
     simp [Query.run, nodeServicesHead, this, wShort_idx]
     simp [svcsOnNode, wShort]
   · have : nodeFind wShort2 "m" = none := by simp [nodeFind, tfind, wShort2]
-    simp (config := {decide := true}) [Query.run, nodeServicesHead, this]
+    simp [Query.run, nodeServicesHead, this, wShort2_ext]
 
 /-! ### 5. Services joined with their nodes -/
 
